@@ -95,6 +95,13 @@ class C14(core.Check):
              'args': [100, 20, None]},
             {'mem': 65534, 'prog': [[10, 'PRINT 1'], [20, 'PRINT 2'], [30, 'END']], 'on_error': 30, 'events': [20],
              'args': [100, 20, 7]},
+            # seed C14e: new number of the trap line = old number of a later line (sequential substitution chains)
+            {'mem': 65534, 'prog': [[10, 'ON ERROR GOTO 20:END'], [20, 'PRINT 2'], [30, 'PRINT 3'], [40, 'PRINT 4'], [50, 'PRINT 5']],
+             'on_error': None, 'events': [30], 'args': [20, None, None], 'run': True},
+            {'mem': 65534, 'prog': [[10, 'REM'], [20, 'REM'], [30, 'REM'], [40, 'REM']], 'on_error': 20, 'events': [20, 30],
+             'args': [30, 20, None]},
+            # trap off and a line 0 that is renumbered: the trap must stay off
+            {'mem': 65534, 'prog': [[0, 'REM'], [10, 'GOTO 0']], 'on_error': None, 'events': [], 'args': [5, None, None]},
             # D13a: reference behind a string literal containing the REM token byte
             {'mem': 65534, 'prog': [[10, 'PRINT "\x8f":GOTO 20'], [20, 'END']], 'on_error': None, 'events': [],
              'args': [100, None, None]},
@@ -124,6 +131,9 @@ class C14(core.Check):
         hist = {'accepted_expected': 0, 'rejected_expected': 0, 'on_error': 0, 'events': 0, 'missing_target': 0}
         out = []
         for _ in range(n):
+            if rng.random() < 0.25:
+                out.append(self.gen_overlap(rng, hist))
+                continue
             nlines = rng.randrange(1, 14)
             nums = set()
             while len(nums) < nlines:
@@ -171,6 +181,44 @@ class C14(core.Check):
         self.histogram = hist
         return out
 
+    def gen_overlap(self, rng, hist):
+        """Evenly spaced lines renumbered UP with the same spacing, so that the new number of a line is the old
+        number of a later line (old and new ranges overlap): a sequential instead of simultaneous substitution of
+        trap lines or references chains through several lines.  The trap is left behind by a real RUN half of the
+        time (ON ERROR GOTO n executed, program ended), else set in direct mode."""
+        d = rng.choice([10, 10, 10, 5, 1, 2, 100])
+        base = rng.choice([0, 0, d, 10, 100, 1000])
+        n = rng.randrange(3, 10)
+        nums = [base + i * d for i in range(n)]
+        i0 = rng.randrange(0, n - 1)
+        j = rng.randrange(i0, n) if rng.random() < 0.2 else rng.randrange(i0 + 1, n)
+        old = None if i0 == 0 and rng.random() < 0.5 else nums[i0]
+        new = nums[j] if rng.random() < 0.85 else nums[j] + rng.choice([0, d, -d, 1])
+        new = max(new, 0)
+        step = rng.choice([d, d, d, 2 * d, None if d == 10 else d])
+        args = [new, old, step]
+        ok = self.expected_map(nums, args) is not None
+        hist['accepted_expected' if ok else 'rejected_expected'] += 1
+        hist['overlap_family'] = hist.get('overlap_family', 0) + 1
+        trap = rng.choice(nums[i0:]) if ok and rng.random() < 0.8 else None
+        if trap == 0:
+            trap = None                    # ON ERROR GOTO 0 = no trap; line 0 is then renumbered with the trap off
+        run = trap is not None and rng.random() < 0.5
+        prog = []
+        for k in nums:
+            t = rng.choice(['GOTO {n}', 'GOSUB {n}', 'IF A THEN {n} ELSE {n}', 'ON A GOTO {n},{n}', 'PRINT {n}', 'REM',
+                            'RESTORE {n}', 'IF ERL={n} THEN {n}', 'RESUME {n}'])
+            while '{n}' in t:
+                t = t.replace('{n}', str(rng.choice(nums)), 1)
+            prog.append([k, t])
+        if run:
+            prog[0][1] = 'ON ERROR GOTO %d:END' % trap
+        events = [e for e in (rng.choice(nums) for _ in range(rng.randrange(0, 3))) if e != 0]
+        hist['on_error'] += trap is not None
+        hist['events'] += bool(events)
+        return {'mem': 65534, 'prog': prog, 'on_error': None if run else trap, 'events': events, 'args': args,
+                'run': run}
+
     # ---- independent reading of the numbering rule
     @staticmethod
     def expected_map(nums, args):
@@ -216,6 +264,10 @@ class C14(core.Check):
                     tb = c13.txt(t)
                     res['bufs'].append(c13.tokenise(s, n, tb))
                     s.execute(b'%d %s' % (n, tb))
+                if case.get('run'):
+                    # the program itself executes ON ERROR GOTO n and ends: the trap stays active
+                    with core.time_limit(10):
+                        s.execute(b'RUN')
                 # traps through the real statements (direct mode)
                 if case['on_error'] is not None:
                     s.execute(b'ON ERROR GOTO %d' % case['on_error'])
